@@ -57,9 +57,8 @@ Clause "cursor moves first child / next sibling are consistent with the single o
 
 Together with `child_spec` these give: a walk by goto_first_child / goto_next_sibling visits the
 children of a node in the order of `enumChildren`.  The position-based node.c searches
-(`parent_spec_partial`, `child_with_descendant_spec_partial`, `next_sibling_spec_partial`) are in
-NodeProps.lean; OPEN: prev_sibling_spec (false on the unchanged code for zero-width nodes: would
-be `_partial` like its mirror image).
+(`parent_spec_partial`, `child_with_descendant_spec_partial`, `next_sibling_spec_partial`,
+`prev_sibling_spec_partial`) are in NodeProps.lean.
 -/
 open TsGen TsVerif TsVerif.C02 TsVerif.C06
 namespace TsVerif.C06
